@@ -720,3 +720,66 @@ func vContentFunctions() (n int, fails []string) {
 
 //@ bounded vContentFunctions content, string-set and bookmark-label with every call of 13 functional notations (target-counter(s), target-text, counter(s), string, attr, element, leader, content, url, symbols, running) with 0 to 4 comma-separated arguments over 6 argument shapes (60 645 declarations): no panic
 //@   props C07 C01
+
+// bounded stand-in (C17, "angles in any unit", function x argument values): the validator's side of the transform
+// list. A path-wise contract on transformFunction timed out on every clause (undecided), so vTransformValues
+// validates `transform: f(v)` for rotate, skewX, skew, skewY over the angles -30, 0, 45, 400 in deg, grad, rad and
+// turn, translate / translateX / translateY over -5px, 0px, 10%, scale / scaleX / scaleY over -1, 0, 2 and a
+// two-function list ending in a zero angle, and compares the stored function name and arguments with CSS Transforms 1
+// §10 (angles in radians; skewX(a) = skew(a, 0), skewY(a) = skew(0, a); a one-argument translate has 0 for y, a
+// one-argument scale repeats its factor): a zero or negative argument is an argument like any other.
+func vTransformValues() (n int, fails []string) {
+	logger.WarningLogger.SetOutput(io.Discard)
+	defer logger.WarningLogger.SetOutput(os.Stdout)
+	check := func(css string, want []pr.SDimensions) {
+		n++
+		got, _ := vDeclared("transform: " + css)[pr.PTransform].(pr.Transforms)
+		ok := len(got) == len(want)
+		for i := 0; ok && i < len(want); i++ {
+			ok = got[i].String == want[i].String && len(got[i].Dimensions) == len(want[i].Dimensions)
+			for j := 0; ok && j < len(want[i].Dimensions); j++ {
+				g, w := got[i].Dimensions[j], want[i].Dimensions[j]
+				d := float64(g.Value - w.Value)
+				ok = g.Unit == w.Unit && d < 1e-4 && d > -1e-4
+			}
+		}
+		if !ok && len(fails) < 6 {
+			fails = append(fails, fmt.Sprintf("transform: %s is stored as %v, expected %v", css, got, want))
+		}
+	}
+	units := map[string]float64{"deg": 3.14159265358979 / 180, "grad": 3.14159265358979 / 200, "rad": 1, "turn": 2 * 3.14159265358979}
+	zero := pr.Dimension{Unit: pr.Px}
+	for _, unit := range []string{"deg", "grad", "rad", "turn"} {
+		for _, v := range []float64{-30, 0, 45, 400} {
+			a := pr.Dimension{Value: pr.Float(v * units[unit]), Unit: pr.Scalar}
+			arg := fmt.Sprintf("(%v%s)", v, unit)
+			check("rotate"+arg, []pr.SDimensions{{String: "rotate", Dimensions: []pr.Dimension{a}}})
+			check("skewX"+arg, []pr.SDimensions{{String: "skew", Dimensions: []pr.Dimension{a, zero}}})
+			check("skew"+arg, []pr.SDimensions{{String: "skew", Dimensions: []pr.Dimension{a, zero}}})
+			check("skewY"+arg, []pr.SDimensions{{String: "skew", Dimensions: []pr.Dimension{zero, a}}})
+		}
+	}
+	for _, l := range []struct {
+		css string
+		d   pr.Dimension
+	}{{"-5px", pr.Dimension{Value: -5, Unit: pr.Px}}, {"0px", pr.Dimension{Unit: pr.Px}}, {"10%", pr.Dimension{Value: 10, Unit: pr.Perc}}} {
+		check("translate("+l.css+")", []pr.SDimensions{{String: "translate", Dimensions: []pr.Dimension{l.d, zero}}})
+		check("translateX("+l.css+")", []pr.SDimensions{{String: "translate", Dimensions: []pr.Dimension{l.d, zero}}})
+		check("translateY("+l.css+")", []pr.SDimensions{{String: "translate", Dimensions: []pr.Dimension{zero, l.d}}})
+	}
+	one := pr.Dimension{Value: 1, Unit: pr.Scalar}
+	for _, v := range []float64{-1, 0, 2} {
+		f := pr.Dimension{Value: pr.Float(v), Unit: pr.Scalar}
+		check(fmt.Sprintf("scale(%v)", v), []pr.SDimensions{{String: "scale", Dimensions: []pr.Dimension{f, f}}})
+		check(fmt.Sprintf("scaleX(%v)", v), []pr.SDimensions{{String: "scale", Dimensions: []pr.Dimension{f, one}}})
+		check(fmt.Sprintf("scaleY(%v)", v), []pr.SDimensions{{String: "scale", Dimensions: []pr.Dimension{one, f}}})
+	}
+	check("translate(10px) rotate(0deg)", []pr.SDimensions{
+		{String: "translate", Dimensions: []pr.Dimension{{Value: 10, Unit: pr.Px}, zero}},
+		{String: "rotate", Dimensions: []pr.Dimension{{Unit: pr.Scalar}}},
+	})
+	return n, fails
+}
+
+//@ bounded vTransformValues the validated form of `transform: f(v)` for rotate / skewX / skew / skewY over 4 angles (negative and zero included) x 4 angle units, translate / translateX / translateY over 3 lengths, scale / scaleX / scaleY over 3 factors and a list ending in a zero angle (83 declarations), against CSS Transforms 1 §10
+//@   props C17
